@@ -270,7 +270,7 @@ alg_wrap_unw(const jose_hook_alg_t *alg, jose_cfg_t *cfg, const json_t *jwe,
     if (json_unpack(hdr, "{s:I}", "p2c", &p2c) == -1)
         return false;
 
-    if (p2c > P2C_MAX_ITERATIONS)
+    if (p2c < 1 || p2c > P2C_MAX_ITERATIONS)
         return false;
 
     stl = jose_b64_dec(json_object_get(hdr, "p2s"), NULL, 0);
